@@ -847,7 +847,6 @@ where
 }
 
 /// get stored tx
-/// crashes if stored tx has total fees exceeding 2^40 nanogrin
 pub fn get_stored_tx<'a, T: ?Sized, C, K>(
 	w: &T,
 	tx_id: Option<u32>,
@@ -883,7 +882,10 @@ where
 		Some(tx) => {
 			let mut slate = Slate::blank(2, false);
 			slate.tx = Some(tx.clone());
-			slate.fee_fields = tx.aggregate_fee_fields().unwrap(); // apply fee mask past HF4
+			// apply fee mask past HF4; a corrupted stored tx can carry fees beyond 2^40
+			slate.fee_fields = tx.aggregate_fee_fields().map_err(|e| {
+				Error::StoredTx(format!("Stored transaction has invalid fee fields: {}", e))
+			})?;
 			slate.id = id;
 			slate.offset = tx.offset;
 			slate.state = SlateState::Standard3;
